@@ -114,6 +114,22 @@ def network_case(ctx, out, desc, tseed):
         if not core.rclose(p2[t], p[k], scale * iscale, tol): return fail('power', id=k, a=str(p[k]), b=str(p2[t]))
     out.traces_validated += 1
     out.sample(dict(original=gen_net.pretty(desc), transformed=gen_net.pretty(desc2)))
+    # ---- the open-circuit voltage between two nodes does not depend on where the reference node is, nor on names /
+    # listing / orientation (seeded change C03-4B: a shortcut for ports that contain the reference node)
+    from CircuitCalculator.Network.NodalAnalysis.bias_point_analysis import open_circuit_voltage
+    nodes = sorted(sigma)
+    pairs = [(a, b) for a in nodes for b in nodes if a != b]
+    core.Rng(tseed, 'ocv').shuffle(pairs)
+    special = [pr for pr in pairs if desc['zero'] in pr or any(sigma[x] == desc2['zero'] for x in pr)]
+    for a, b in (special[:4] + pairs[:3]):
+        try:
+            u1 = complex(open_circuit_voltage(net, a, b)); u2 = complex(open_circuit_voltage(net2, sigma[a], sigma[b]))
+        except Exception as e:
+            out.count('ocv_raises:' + tag(e)); continue
+        if not (np.isfinite(u1) and np.isfinite(u2)): continue
+        out.count('ocv_compared')
+        if not core.rclose(u2, u1, scale, tol):
+            return fail('open_circuit_voltage', port=[a, b], a=str(u1), b=str(u2))
     # ---- the index maps handed to the solver (node numbering, source column order) do not matter either
     from props.c01 import mapper_case
     try:
